@@ -420,9 +420,9 @@ def c16(prop, tier, t0):
 
 @check("C17")
 def c17(prop, tier, t0):
-    m, cov = engb_run(prop, tier, "c17", 0, shards=6)
+    m, cov = engb_run(prop, tier, "c17", 0, shards=6 if tier == "quick" else vlib.NCPU)
     cov.pop("preemption_bound", None)
-    cov["explanation"] = ("the real ProcessEvents with its real LED refresh loop (instrumented, virtual time, fake OpenRGB server) is walked, for 6 LED layouts, through every combination of mapping (3, one named Control) x channel "
+    cov["explanation"] = ("the real ProcessEvents with its real LED refresh loop (instrumented, virtual time, fake OpenRGB server) is walked, for 6 LED layouts (thorough: plus every rotation of the full layout and every layout with one LED missing), through every combination of mapping (3, one named Control) x channel "
                           "x octave x semitone x held-key sets x MIDI-input notes on the current / another channel incl. NoteOff, NoteOn velocity 0 and panic; after every step a frame computed strictly after the step "
                           "(two refresh iterations after an event barrier) is compared LED by LED with a reference colouring written from the statement; indicator keys must be a function of their value and distinguish values; "
                           "the last frame after disconnect must be all red. One deterministic schedule (the frame is a function of state), 'states' = global scheduler states passed, frames_checked = (state, layout) pairs judged.")
